@@ -58,8 +58,11 @@ SErrors(r) ==
   \cup (IF m = NoMethod THEN {"method_lookup"} ELSE
          (IF m.did \notin Trusted(r) THEN {"document_mismatch"}
           ELSE IF KeyOf(m.did, m.frag) = "none" \/ (r.scope # "none" /\ r.scope \notin ScopesOf(m.did, m.frag)) THEN {"method_lookup"}
-          ELSE IF KeyOf(m.did, m.frag) # r.signed_with THEN {"signature"}
-          ELSE IF r.issuer_claim # m.did THEN {"identifier_mismatch"} ELSE {}))
+          \* once the method is found, "the signature verifies under it" and "its DID is the credential's issuer" are two
+          \* independent conditions: when both are false either error identifies a false condition (the library checks the
+          \* signature first; an implementation that compares the issuer first is as good)
+          ELSE (IF KeyOf(m.did, m.frag) # r.signed_with THEN {"signature"} ELSE {})
+               \cup (IF r.issuer_claim # m.did THEN {"identifier_mismatch"} ELSE {})))
 
 \* ------------------------------- unit phase -------------------------------
 StatusKinds == {"none", "not_revoked", "revoked", "index_mismatch", "service_missing", "unsupported_type"}
